@@ -13,6 +13,7 @@ import (
 	"strings"
 	"time"
 	"unicode"
+	"unicode/utf8"
 
 	"github.com/osteele/liquid/values"
 	"github.com/osteele/tuesday"
@@ -220,19 +221,41 @@ func AddStandardFilters(fd FilterDictionary) { //nolint: gocyclo
 	fd.AddFilter("truncate", func(s string, length func(int) int, ellipsis func(string) string) string {
 		n := length(50)
 		el := ellipsis("...")
-		// runes aren't bytes; don't use slice
-		re := regexp.MustCompile(fmt.Sprintf(`^(.{%d})..{%d,}`, n-len(el), len(el)))
-		return re.ReplaceAllString(s, `$1`+el)
+		// count characters, not bytes
+		rs := []rune(s)
+		if len(rs) <= n {
+			return s
+		}
+		keep := 0
+		if m := utf8.RuneCountInString(el); n > m {
+			keep = n - m
+		}
+		return string(rs[:keep]) + el
 	})
 	fd.AddFilter("truncatewords", func(s string, length func(int) int, ellipsis func(string) string) string {
 		el := ellipsis("...")
 		n := length(15)
-		re := regexp.MustCompile(fmt.Sprintf(`^(?:\s*\S+){%d}`, n))
-		m := re.FindString(s)
-		if m == "" {
-			return s
+		if n < 1 {
+			n = 1
 		}
-		return m + el
+		// end is the offset just past the n-th word; truncate only if another word follows
+		words, inWord, end := 0, false, 0
+		for i, r := range s {
+			switch {
+			case unicode.IsSpace(r):
+				if inWord && words == n {
+					end = i
+				}
+				inWord = false
+			case !inWord:
+				inWord = true
+				words++
+				if words > n {
+					return s[:end] + el
+				}
+			}
+		}
+		return s
 	})
 	fd.AddFilter("upcase", func(s, suffix string) string {
 		return strings.ToUpper(s)
